@@ -351,6 +351,56 @@ def _replays_in_child(prop_name, rep):
     rep.extra["corpus_replayed"] = replayed
 
 
+def _cgf_stage(prop_name, prop, tier, seed, rep, runs, run_dir, workers=16):
+    """Coverage-guided stage (vlib/cgf.py): `workers` libFuzzer processes of `runs` executions each, same strategy, same oracle."""
+    import re
+    import subprocess
+
+    if not os.path.isdir(os.path.join(env.VERIF, ".deps", "atheris")):
+        rep.extra["coverage_guided"] = {"skipped": "atheris is not installed under .deps (run ./setup.sh)"}
+        return
+    outdir = os.path.join(run_dir, "cgf")
+    os.makedirs(outdir, exist_ok=True)
+    procs = []
+    for w in range(workers):
+        log = open(os.path.join(outdir, f"log_{w}.txt"), "w")
+        procs.append((w, log, subprocess.Popen([sys.executable, "-m", "vlib.cgf", prop_name, tier, str(seed), str(w), str(runs), outdir], cwd=env.VERIF,
+                                               stdout=log, stderr=subprocess.STDOUT, env=dict(os.environ, PYTHONHASHSEED="0"))))
+    summary = {"engine": "atheris (libFuzzer) over hypothesis.fuzz_one_input, JASM's Python modules instrumented", "workers": workers, "runs_per_worker": runs,
+               "executions": 0, "in_domain_cases": 0, "coverage_increasing_inputs": 0, "edge_coverage_max": 0, "features_max": 0}
+    for w, log, p in procs:
+        rc = p.wait()
+        log.close()
+        text = open(os.path.join(outdir, f"log_{w}.txt"), errors="replace").read()
+        m = re.findall(r"^#(\d+)\s+(?:DONE|pulse|NEW|REDUCE|INITED)\s+cov: (\d+) ft: (\d+)", text, re.M)
+        if m:
+            summary["edge_coverage_max"] = max(summary["edge_coverage_max"], max(int(x[1]) for x in m))
+            summary["features_max"] = max(summary["features_max"], max(int(x[2]) for x in m))
+        mm = re.search(r"stat::number_of_executed_units:\s+(\d+)", text)
+        summary["executions"] += int(mm.group(1)) if mm else 0
+        mm = re.search(r"stat::new_units_added:\s+(\d+)", text)
+        summary["coverage_increasing_inputs"] += int(mm.group(1)) if mm else 0
+        sp = os.path.join(outdir, f"stats_{w}.json")
+        if not os.path.exists(sp):
+            rep.errors.append(f"coverage-guided worker {w} left no statistics (exit {rc}):\n" + text[-1500:])
+            continue
+        st = json.load(open(sp))
+        summary["in_domain_cases"] += st["evaluations"]
+        rep.evaluations += st["evaluations"]
+        rep.subcases += st["subcases"]
+        rep.tags.update(st["tags"])
+        rep.hashes |= {bytes.fromhex(h) for h in st["hashes"]}
+        rep.inconclusive += st["inconclusive"]
+        rep.excluded.update(st["excluded_known"])
+        if st.get("violation"):
+            rep.violations.append((st["violation"]["case"], st["violation"]["deviation"]))
+        elif st.get("error"):
+            rep.errors.append(f"coverage-guided worker {w}: " + st["error"])
+        elif rc not in (0,):
+            rep.errors.append(f"coverage-guided worker {w} exited with status {rc}:\n" + text[-1500:])
+    rep.extra["coverage_guided"] = summary
+
+
 def run_property(prop_name, tier, replay=None):
     import importlib
 
@@ -406,6 +456,9 @@ def run_property(prop_name, tier, replay=None):
                 rep.merge_shard(st)
         if hasattr(prop, "extra"):
             prop.extra(tier, seed, rep)
+        runs = int(os.environ.get("VERIF_CGF_RUNS", getattr(prop, "CGF_RUNS", {}).get(tier, 0)))
+        if runs > 0:
+            _cgf_stage(prop_name, prop, tier, seed, rep, runs, run_dir)
     except Exception:  # noqa: BLE001
         rep.errors.append(traceback.format_exc()[-4000:])
     return finish(prop, rep)
